@@ -18,6 +18,7 @@ CONSTANTS
   Fixed = TRUE
   Roots = {}
   GenT = {41,42,43,44,45,46,47,48,49,50,51,52,53,54,55,56,57,58,59,60}
+  FixedF5 = TRUE
   NoWeak = {81,82,83,84,85,86,87,88,89,90,91,92,93,94,95,96,97,98,99,100}
 INVARIANT NeverEscapes
 CONSTRAINT Progress
